@@ -71,3 +71,152 @@ def c13_docking(repo: Path) -> str:
     return ("namespace ASV.Generated\n"
             f"def dockingDomains : List String := {lean_str_list(names)}\n"
             "end ASV.Generated\n")
+
+
+
+# ----------------------------------------------------------------------------- C14: NRPS/PKS module tables
+
+_MI = "antismash/detection/nrps_pks_domains/module_identification.py"
+
+
+def _camel(name: str) -> str:
+    parts = name.lower().split("_")
+    return parts[0] + "".join(p.capitalize() for p in parts[1:])
+
+
+@table("Modules")
+def modules_tables(repo: Path) -> str:
+    """the domain-class sets, CLASSIFICATIONS (in dict order), DOUBLE_TRANSPORTER_CASES and the
+       label/subtype literals used inside the Component/Module methods, from the current source"""
+    import ast
+    from .gen_tables import TableError, find_assign, lean_str
+
+    path = repo / _MI
+    tree = ast.parse(path.read_text())
+    sets: dict = {}
+
+    def ev(node: ast.AST) -> set:
+        """set expressions: literals, names of earlier tables, x.union(a, b, ...)"""
+        if isinstance(node, ast.Set):
+            return {ast.literal_eval(e) for e in node.elts}
+        if isinstance(node, ast.Name):
+            if node.id not in sets:
+                raise TableError(f"{path}: set {node.id} used before definition")
+            return set(sets[node.id])
+        if isinstance(node, ast.Call) and isinstance(node.func, ast.Attribute) and node.func.attr == "union":
+            out = ev(node.func.value)
+            for arg in node.args:
+                out |= ev(arg)
+            return out
+        if isinstance(node, ast.Call) and isinstance(node.func, ast.Name) and node.func.id in ("set", "frozenset") \
+                and len(node.args) == 1:
+            return set(ast.literal_eval(node.args[0]))
+        raise TableError(f"{path}: unsupported set expression {ast.dump(node)[:80]}")
+
+    class_names = ["ADENYLATIONS", "ACYLTRANSFERASES", "CONDENSATIONS", "ENDS", "KETOSYNTHASES", "MODIFIERS",
+                   "CARRIER_PROTEINS", "ALTERNATE_STARTERS", "NON_MODULE", "OTHER", "SPECIAL", "FUSED_STARTERS"]
+    for name in class_names:
+        sets[name] = ev(find_assign(path, name))
+        if not all(isinstance(x, str) for x in sets[name]):
+            raise TableError(f"{path}: {name} is not a set of strings")
+
+    def func(qual: str) -> ast.AST:
+        node: ast.AST = tree
+        for part in qual.split("."):
+            for child in ast.iter_child_nodes(node):
+                if isinstance(child, (ast.FunctionDef, ast.ClassDef)) and child.name == part:
+                    node = child
+                    break
+            else:
+                raise TableError(f"{path}: {qual} not found")
+        return node
+
+    def str_constants(qual: str) -> list:
+        """string constants of a function body in source order, docstring excluded"""
+        node = func(qual)
+        body = list(node.body)
+        if body and isinstance(body[0], ast.Expr) and isinstance(body[0].value, ast.Constant):
+            body = body[1:]
+        found = []
+        for stmt in body:
+            for sub in ast.walk(stmt):
+                if isinstance(sub, ast.Constant) and isinstance(sub.value, str):
+                    found.append((sub.lineno, sub.col_offset, sub.value))
+        return [v for _, _, v in sorted(found)]
+
+    def expect(qual: str, count: int) -> list:
+        got = str_constants(qual)
+        if len(got) != count:
+            raise TableError(f"{path}: {qual} has string constants {got}, expected {count} of them")
+        return got
+
+    # CLASSIFICATIONS: key -> name of a set, order kept (classify returns the first match)
+    cl = find_assign(path, "CLASSIFICATIONS")
+    if not isinstance(cl, ast.Dict):
+        raise TableError(f"{path}: CLASSIFICATIONS is not a dict literal")
+    classifications = []
+    for k, v in zip(cl.keys, cl.values):
+        if not (isinstance(k, ast.Constant) and isinstance(k.value, str) and isinstance(v, ast.Name)):
+            raise TableError(f"{path}: CLASSIFICATIONS entry not of the form 'key': NAME")
+        if v.id not in sets:
+            raise TableError(f"{path}: CLASSIFICATIONS refers to unknown set {v.id}")
+        classifications.append((k.value, v.id))
+
+    cases = literal(path, "DOUBLE_TRANSPORTER_CASES")
+    cases = sorted([list(c) for c in cases])
+    if not all(isinstance(x, str) for c in cases for x in c):
+        raise TableError(f"{path}: DOUBLE_TRANSPORTER_CASES is not a set of string tuples")
+
+    # Component.is_starter: any(self.label in collection for collection in (A, B, ...))
+    starter_cols = None
+    for sub in ast.walk(func("Component.is_starter")):
+        if isinstance(sub, ast.comprehension) and isinstance(sub.iter, ast.Tuple) \
+                and all(isinstance(e, ast.Name) for e in sub.iter.elts):
+            starter_cols = [e.id for e in sub.iter.elts]
+    if not starter_cols or any(n not in sets for n in starter_cols):
+        raise TableError(f"{path}: Component.is_starter no longer iterates over a tuple of known sets")
+
+    # Module.is_starter_module: {...}.union(ALTERNATE_STARTERS)
+    starter_module = None
+    for sub in ast.walk(func("Module.is_starter_module")):
+        if isinstance(sub, ast.Call) and isinstance(sub.func, ast.Attribute) and sub.func.attr == "union":
+            starter_module = ev(sub)
+    if starter_module is None:
+        raise TableError(f"{path}: Module.is_starter_module has no set union")
+
+    coa, = expect("Component.is_coa_ligase", 1)
+    prefix, = expect("Component.is_pks_specific", 1)
+    trans_sub, trans_dock = expect("Module.is_trans_at", 2)
+    iterative, = expect("Module.is_iterative", 1)
+    termination = expect("Module.is_termination_module", 2)
+    ensure_consts = str_constants("Module.ensure_suitable")
+    kr_ensure = [c for c in ensure_consts if c in sets["MODIFIERS"]]
+    if len(kr_ensure) != 1:
+        raise TableError(f"{path}: Module.ensure_suitable should name exactly one modifier label, has {kr_ensure}")
+    kr_combine = [c for c in str_constants("combine_modules") if c in sets["MODIFIERS"]]
+    if len(kr_combine) != 1:
+        raise TableError(f"{path}: combine_modules should name exactly one modifier label, has {kr_combine}")
+
+    out = ["namespace ASV.Modules.T", ""]
+    for name in class_names:
+        out.append(f"def {_camel(name)} : List String := {lean_str_list(sorted(sets[name]))}")
+    out.append("")
+    out.append("/-- CLASSIFICATIONS in dict order (classify returns the first key whose set contains the name) -/")
+    out.append("def classifications : List (String × List String) := ["
+               + ", ".join(f"({lean_str(k)}, {_camel(v)})" for k, v in classifications) + "]")
+    out.append("def doubleTransporterCases : List (List String) := ["
+               + ", ".join(lean_str_list(c) for c in cases) + "]")
+    out.append("/-- the collections `Component.is_starter` looks through -/")
+    out.append("def starterCollections : List (List String) := [" + ", ".join(_camel(n) for n in starter_cols) + "]")
+    out.append(f"def coaLigaseLabel : String := {lean_str(coa)}")
+    out.append(f"def pksPrefix : String := {lean_str(prefix)}")
+    out.append(f"def transAtSubtype : String := {lean_str(trans_sub)}")
+    out.append(f"def transAtDocking : String := {lean_str(trans_dock)}")
+    out.append(f"def iterativeSubtype : String := {lean_str(iterative)}")
+    out.append(f"def terminationLabels : List String := {lean_str_list(termination)}")
+    out.append(f"def starterModuleLabels : List String := {lean_str_list(sorted(starter_module))}")
+    out.append(f"def transAtKrLabel : String := {lean_str(kr_ensure[0])}")
+    out.append(f"def trailingKrLabel : String := {lean_str(kr_combine[0])}")
+    out.append("")
+    out.append("end ASV.Modules.T")
+    return "\n".join(out) + "\n"
